@@ -41,13 +41,14 @@ CONSTANTS MaxBr, MaxRep, MaxTerm,   \* shape bounds
           Mode,                    \* "sat": tree x choice x falsification; "mut": tree x choice x tampering;
                                    \* "name": tree x choice x name length x verifier's protocol-name class
           Wraps,                   \* subset of {"min", "full"}: elide / keep trivial Or and And nodes
+          Runs,                    \* how many times the SAME Prover closure and the SAME Verifier closure are run (set of naturals >= 1)
           NameLens,                \* lengths of the prover's protocol name (mode "name": {0, 1, 63, 64, 65, 200})
           Faults                   \* subset of 0..3: the transport of the interactive protocol fails at that round (0 = never)
 
-VARIABLES phase, tree, choice, wrap, fals, mut, fault, nlen, hist,
+VARIABLES phase, tree, choice, wrap, fals, mut, fault, nlen, runs, hist,
           ms, mb, nt      \* bookkeeping of the canonical construction: largest scalar variable / base used, number of terms
-vars == <<phase, tree, choice, wrap, fals, mut, fault, nlen, hist, ms, mb, nt>>
-View == <<phase, tree, choice, wrap, fals, mut, fault, nlen>>
+vars == <<phase, tree, choice, wrap, fals, mut, fault, nlen, runs, hist, ms, mb, nt>>
+View == <<phase, tree, choice, wrap, fals, mut, fault, nlen, runs>>
 
 Max2(a, b) == IF a > b THEN a ELSE b
 NBr       == Len(tree)
@@ -83,6 +84,11 @@ Must == IF ~BranchTrue(choice) THEN "rej"
         ELSE IF ~Tampered THEN "acc"
         ELSE IF Reorder THEN "free" ELSE "rej"
 
+\* Object re-use (runs > 1): provers and verifiers are values; the SAME Prover closure is run `runs` times (each
+\* run a fresh proof), the SAME Verifier closure checks every one of them, and the same Predicate value also yields a
+\* second Prover for another branch. The verdict of a run is Must (for the other branch: its entry of `truth`) -
+\* it does not depend on what ran before on that object; the specification therefore has no state for it.
+
 \* The interactive (deniable) protocol draws the challenge independently of the transcript, so a verifier whose
 \* predicate is the prover's with the last And-term left out - a predicate IMPLIED by the proven one, whose
 \* transcript is a sub-transcript - is not required to reject there ("different predicate" is read as "a predicate
@@ -95,7 +101,7 @@ MustDen == IF fault # 0 THEN "rej"
 
 -----------------------------------------------------------------------------
 Init == /\ phase = "build" /\ tree = << << <<>> >> >> /\ choice = 0 /\ wrap = "min"
-        /\ fals = NoFals /\ mut = NoMut /\ fault = 0 /\ nlen = 0 /\ hist = <<>> /\ ms = 0 /\ mb = 0 /\ nt = 0
+        /\ fals = NoFals /\ mut = NoMut /\ fault = 0 /\ nlen = 0 /\ runs = 1 /\ hist = <<>> /\ ms = 0 /\ mb = 0 /\ nt = 0
 
 LastB == tree[NBr]
 LastR == LastB[Len(LastB)]
@@ -107,24 +113,24 @@ AddTerm ==
        /\ s <= ms + 1 /\ b <= mb + 1              \* canonical introduction order
        /\ tree' = SetLastRep(Append(LastR, [s |-> s, b |-> b]))
        /\ ms' = Max2(ms, s) /\ mb' = Max2(mb, b) /\ nt' = nt + 1
-  /\ UNCHANGED <<phase, choice, wrap, fals, mut, fault, nlen, hist>>
+  /\ UNCHANGED <<phase, choice, wrap, fals, mut, fault, nlen, runs, hist>>
 
 NewRep ==
   /\ phase = "build" /\ Len(LastR) > 0 /\ Len(LastB) < MaxRep
   /\ tree' = [tree EXCEPT ![NBr] = Append(@, <<>>)]
-  /\ UNCHANGED <<phase, choice, wrap, fals, mut, fault, nlen, hist, ms, mb, nt>>
+  /\ UNCHANGED <<phase, choice, wrap, fals, mut, fault, nlen, runs, hist, ms, mb, nt>>
 
 NewBranch ==
   /\ phase = "build" /\ Len(LastR) > 0 /\ NBr < MaxBr
   /\ tree' = Append(tree, << <<>> >>)
-  /\ UNCHANGED <<phase, choice, wrap, fals, mut, fault, nlen, hist, ms, mb, nt>>
+  /\ UNCHANGED <<phase, choice, wrap, fals, mut, fault, nlen, runs, hist, ms, mb, nt>>
 
 FalsMenu == {NoFals}
        \cup (IF Mode = "sat" THEN {[k |-> "s", i |-> v, j |-> 0] : v \in 1..MaxS}
                                   \cup {[k |-> "p", i |-> b, j |-> r] : b \in 1..NBr, r \in 1..MaxRep} ELSE {})
 
 ProveRec(its, npr) ==
-  [op |-> "prove", tree |-> tree, choice |-> choice', wrap |-> wrap', fals |-> fals', fault |-> fault', nlen |-> nlen',
+  [op |-> "prove", tree |-> tree, choice |-> choice', wrap |-> wrap', fals |-> fals', fault |-> fault', nlen |-> nlen', runs |-> runs',
    items |-> its, nprirand |-> npr,
    truth |-> [b \in 1..NBr |-> LET ff == fals' IN
                 \A r \in Reps(b) : ~(\/ ff.k = "s" /\ \E t \in 1..Len(tree[b][r]) : tree[b][r][t].s = ff.i
@@ -136,8 +142,8 @@ Prove ==
   /\ phase = "build" /\ Len(LastR) > 0
   /\ UNCHANGED <<tree, mut, ms, mb, nt>>
   /\ LET its == ItemKinds  npr == NPriRand IN      \* evaluated once per tree, not once per successor
-     \E c \in 1..NBr, w \in Wraps, f \in FalsMenu, fl \in Faults, nl \in NameLens :
-       /\ fault' = fl /\ nlen' = nl
+     \E c \in 1..NBr, w \in Wraps, f \in FalsMenu, fl \in Faults, nl \in NameLens, rn \in Runs :
+       /\ fault' = fl /\ nlen' = nl /\ runs' = rn
        /\ (f.k = "p" => f.j <= Len(tree[f.i]))
        \* a falsified point is named once: by the first Rep carrying these terms
        /\ (f.k = "p" => \A b \in 1..NBr : \A r \in Reps(b) : tree[b][r] = tree[f.i][f.j] => <<f.i, f.j>> = <<b, r>> \/ b > f.i \/ (b = f.i /\ r > f.j))
@@ -187,7 +193,7 @@ MutOK(m) ==
 
 Tamper ==
   /\ phase = "tamper"
-  /\ UNCHANGED <<tree, choice, wrap, fals, fault, nlen, ms, mb, nt>>
+  /\ UNCHANGED <<tree, choice, wrap, fals, fault, nlen, runs, ms, mb, nt>>
   /\ \E m \in MutMenu \cup {NoMut} :
        /\ MutOK(m) /\ mut' = m
        /\ hist' = hist \o <<[op |-> "tamper", m |-> m], [op |-> "verify", must |-> Must', mustden |-> MustDen']>>
